@@ -41,6 +41,13 @@ def families(tier):
         out.append(dict(prop='C14', family='c14.burst.' + ('in_handler' if src != 'main' else 'main'), id=f'c14/K{K}-h{hist}-{src}-b{int(backlog)}-r{int(reoffer)}', cfg=cfg,
                         params=dict(K=K, hist=hist, src=src, reoffer=reoffer),
                         scn=dict(buses={'A': dict(hist=hist)}, order=['A'], handlers=hs, main=main, actors=[], forwards=[], settle=3.0, no_watch=True)))
+    # a dispatch rejected by bus B must not leave B in the event's path: later the same object reaches B through forwarding from A and must be processed there
+    for hist, fill in itertools.product((5, 50), ('main',)):
+        hs = [dict(bus='B', pat='X', name='hxB', prog=[('ret', 1)], kind='sync'), dict(bus='B', pat='Y', name='hyB', prog=[('pause',)]),
+              dict(bus='B', pat='Q', name='hqB', prog=[('ret', 2)]), dict(bus='A', pat='Q', name='hqA', prog=[('ret', 3)])]
+        main = [('disp', 'B', 'Y1', 'ff'), ('burst', 'B', 'X', 60), ('disp', 'B', 'Q', 'ff'), ('pause',), ('idle', 'B'), ('redisp', 'A', 'Q'), ('idle', 'A'), ('idle', 'B')]
+        out.append(dict(prop='C14', family='c14.reject_then_forward', id=f'c14/rejfwd-h{hist}', cfg=cfg, params=dict(K=60, hist=hist, src='main', reoffer=False, expect_forward='Q'),
+                        scn=dict(buses={'A': dict(hist=hist), 'B': dict(hist=hist)}, order=['A', 'B'], handlers=hs, main=main, actors=[], forwards=[('A', 'B')], settle=3.0, no_watch=True)))
     # the capacity boundary raced by an external dispatcher: its dispatches land between any two steps of the handlers (busy choice points on)
     for hist, src in itertools.product((5, 50), ('main', 'async')):
         hs = [dict(bus='A', pat='X', name='hx', prog=[('ret', 1)], kind='sync'), dict(bus='A', pat='Y', name='hy', prog=[('pause',)])]
@@ -99,6 +106,17 @@ def oracle(spec, res):
             n = cnt.get(ev, 0)
             if n != 1 and ev[0] in 'XYP':
                 out.append(V('accepted_event_dropped' if n == 0 else 'accepted_event_handled_twice', f'{ev}: handled {n} times; dispatch outcomes {outcomes}', in_handler=in_handler))
+    # per (bus, event): a rejection must not leave the bus in event_path (a later forward into that bus would be skipped as a 'loop')
+    per_bus = {}
+    for d in tr.dispatches:
+        per_bus.setdefault((d[3], d[4]), []).append(d[5])
+    for (bus, ev), outcomes in per_bus.items():
+        if 'ok' not in outcomes and bus in fin['events'].get(ev, {}).get('path', []):
+            out.append(V('rejected_dispatch_left_bus_in_event_path', f'{ev}: every dispatch to {bus} was rejected ({outcomes[0]}) but event_path is {fin["events"][ev]["path"]}', in_handler=in_handler))
+    ef = spec['params'].get('expect_forward')
+    if ef and v == 'done':
+        if not any(en[2] == 'B' and en[4] == ef for en in tr.enters):
+            out.append(V('event_not_forwarded_to_bus_that_rejected_it_earlier', f'{ef} was dispatched to A (which forwards to B) after B had rejected it once: B never processed it; path {fin["events"].get(ef, {}).get("path")}'))
     if v == 'done':
         for ev, fe in fin['events'].items():
             if 'ok' in last.get(ev, []) and (fe['status'] != 'completed' or not fe['sig']):
